@@ -54,6 +54,9 @@ type Spec struct {
 	Tags        []string // free-form classification: "lalr1", "conflict-sr", "conflict-rr", "lr1only", "expr", ...
 	NoStartDecl bool     // omit %start (grammar then must name its start symbol "start")
 	MinN        int      // minimal number of symbolic tokens needed to reach the interesting part
+	// ExtraDecl are raw declaration lines rendered before the token lines (earlier, partial
+	// declarations of tokens that are declared completely later)
+	ExtraDecl []string
 }
 
 func (s *Spec) HasTag(t string) bool {
@@ -212,6 +215,9 @@ func (s *Spec) Render(o RenderOpts) string {
 	if o.Union != "" {
 		sb.WriteString("%union {" + o.Union + "}\n")
 	}
+	for _, l := range s.ExtraDecl {
+		sb.WriteString(l + "\n")
+	}
 	// token declarations
 	for _, t := range s.Toks {
 		if t.Decl == "prec" || t.Decl == "rule" {
@@ -299,6 +305,7 @@ function GetToken(input :string, model:{ValType :ValType, pos :number}) :number 
 	}
 	model.ValType = new ValType()
 	model.ValType.val = verifVal[i]
+	model.ValType.alt = verifVal[i] + 1000
 	if (verifUseIdx) {
 		let k = verifTok[i]
 		if (k == -1) {
@@ -414,7 +421,7 @@ func Fixed() []*Spec {
 	{
 		s := &Spec{Name: "prec_mixed", Tags: []string{"expr-like", "conflict-resolved"},
 			Toks:  []Tok{named("NUM", 303), {Char: '<', Decl: "prec"}, {Name: "LE", Decl: "prec"}, {Char: '+', Decl: "prec"}, {Name: "PLUS2", Decl: "prec"}},
-			Prec:  []PrecLine{{"nonassoc", []string{"'<'", "LE"}}, {"left", []string{"'+'", "PLUS2"}}},
+			Prec:  []PrecLine{{"nonassoc", []string{"'<'", "LE"}}, {"left", []string{"PLUS2", "'+'"}}},
 			Rules: rules("E: E '<' E | E LE E | E '+' E | E PLUS2 E | NUM"),
 			NTTag: allVal("E")}
 		add(s)
@@ -510,6 +517,32 @@ func Fixed() []*Spec {
 		Toks:  []Tok{named("ID", 400), named("NUM", 401), lit(';'), lit('='), lit('+'), lit('('), lit(')'), lit('{'), lit('}'), lit('!'), lit('?')},
 		Rules: rules("P: L", "L: | L S", "S: ID '=' E ';' | '{' L '}' | '?' E S | ';'", "E: E '+' T | T", "T: ID | NUM | '(' E ')' | '!' T"),
 		NTTag: map[string]string{"P": "val", "L": "val", "S": "alt", "E": "val", "T": "val"}})
+	// a token declared in two steps: first bare (and once with another tag), later with tag and number
+	add(&Spec{Name: "redecl", Tags: []string{"lalr1"},
+		ExtraDecl: []string{"%token REG", "%token <val> IDX"},
+		Toks:      []Tok{{Name: "REG", Num: 330, Tag: "alt"}, {Name: "IDX", Num: 331, Tag: "alt"}, named("NUM", 332), lit('+'), lit('[')},
+		Rules:     rules("S: S '+' T | T", "T: REG | NUM | REG '[' IDX"),
+		NTTag:     allVal("S", "T")})
+	// so small that the generator decides packing is not worthwhile
+	add(&Spec{Name: "rlist", Tags: []string{"lalr1", "nullable"},
+		Toks:  []Tok{named("NUM", 340)},
+		Rules: rules("L: | NUM L"),
+		NTTag: allVal("L")})
+	// one state reached with its kernel items in different insertion orders: two items advance on
+	// the same symbol, one of them followed by a nonterminal (closure), the other by a terminal;
+	// the groups of rules in several orders, because the order of rule numbers decides the item order
+	{
+		groups := []string{"R: 'a' C 'r'", "A: 'a' 'x'", "Q: 'a' C 's'", "C: 'x'"}
+		for i, perm := range [][]int{{0, 1, 2, 3}, {1, 0, 2, 3}, {3, 2, 1, 0}, {2, 3, 0, 1}} {
+			lines := []string{"S: 'p' R | 'p' A | 'q' A | 'q' Q"}
+			for _, k := range perm {
+				lines = append(lines, groups[k])
+			}
+			add(&Spec{Name: fmt.Sprintf("kernel_order_%d", i), Tags: []string{"lalr1"},
+				Toks:  []Tok{lit('p'), lit('q'), lit('a'), lit('x'), lit('r'), lit('s')},
+				Rules: rules(lines...)})
+		}
+	}
 	// default-resolved conflicts
 	add(&Spec{Name: "dangling_else", Tags: []string{"conflict-sr"},
 		Toks:  []Tok{lit('i'), lit('e'), litV('x')},
@@ -796,6 +829,22 @@ func (s *Spec) Pieces() (pieces, seps []string) {
 	add("%{"+GoPrologue+"%}", "\n")
 	add("%union", " ")
 	add("{"+GoUnion+"}", "\n")
+	for _, l := range s.ExtraDecl {
+		f := strings.Fields(l)
+		for i, w := range f {
+			sep := " "
+			if i == len(f)-1 {
+				sep = "\n"
+			}
+			if strings.HasPrefix(w, "<") && strings.HasSuffix(w, ">") {
+				add("<", "")
+				add(strings.Trim(w, "<>"), "")
+				add(">", sep)
+			} else {
+				add(w, sep)
+			}
+		}
+	}
 	for _, t := range s.Toks {
 		if t.Decl == "prec" || t.Decl == "rule" {
 			continue
